@@ -127,6 +127,80 @@ Definition area (k : tolkind) (interp : float -> float) (prec : float) (tA vA tB
 
 Definition no_interp (x : float) : float := 0.
 
+(* ---------------------------------------------------------------- AreaComparison, general form
+   * the interpolation object is rebuilt from the ORIGINAL (abscissas, values) of the curve that receives the
+     new points: `integralInterpolation->interpolate(timesB, valB)` before the points of A are merged into B,
+     `interpolate(timesA, valA)` before the points of (the enlarged) B are merged into A;
+   * the normalisation is a parameter:
+       NormMax    : area / max_i vA_i                       (pinned tree: the maximum keeps its sign)
+       NormAbsMax : area / max_i |vA_i|, a null area is left as it is (0/0 would be NaN for a null reference)
+   `area_value interp` above is `area_value_g NormMax (fun _ _ => interp)`. *)
+Inductive normkind := NormMax | NormAbsMax.
+
+Definition fmax_abs_list (v0 : float) (l : list float) : float :=
+  fold_left (fun m v => if PrimFloat.ltb m (abs v) then abs v else m) l (abs v0).
+
+Definition normalise (nk : normkind) (ar : float) (vA : list float) : option float :=
+  match vA with
+  | [] => None
+  | v0 :: _ =>
+      match nk with
+      | NormMax => Some (ar / fmax_list v0 vA)
+      | NormAbsMax => Some (if fneq ar 0 then ar / fmax_abs_list v0 vA else ar)
+      end
+  end.
+
+Definition area_value_g (nk : normkind) (mk : list float -> list float -> float -> float)
+           (tA vA tB vB : list float) : option float :=
+  let (tB1, vB1) := merge_into (mk tB vB) tA tB vB in
+  let (tA1, vA1) := merge_into (mk tA vA) tB1 tA vA in
+  match absdiffs vA1 vB1 with
+  | None => None
+  | Some ds =>
+      match trapz 0 tA1 ds with
+      | None => None
+      | Some ar => normalise nk ar vA
+      end
+  end.
+
+Definition area_g (k : tolkind) (nk : normkind) (mk : list float -> list float -> float -> float)
+           (prec : float) (tA vA tB vB : list float) : option bool :=
+  match area_value_g nk mk tA vA tB vB with
+  | None => None
+  | Some ar => Some (negb (exceeds k ar prec))
+  end.
+
+Definition none_mk (ts vs : list float) : float -> float := no_interp.
+
+(* LinearInterpolation = tfel::check::Linearization: a std::map<double,double> filled with insert() (an abscissa
+   already present keeps its FIRST value; +0 and -0 are the same key), evaluated with lower_bound:
+   before the first key / after the last key: the first / last value; otherwise
+   (y1 - y0) / (x1 - x0) * (x - x0) + y0 between the neighbours (also when x equals the key x1).
+   NaN abscissas break the ordering required by std::map and are not modelled. *)
+Fixpoint lin_insert (t v : float) (m : list (float * float)) : list (float * float) :=
+  match m with
+  | [] => [(t, v)]
+  | (t', v') :: m' =>
+      if PrimFloat.ltb t t' then (t, v) :: m
+      else if PrimFloat.ltb t' t then (t', v') :: lin_insert t v m'
+      else m
+  end.
+
+Fixpoint lin_lookup (x : float) (prev : option (float * float)) (m : list (float * float)) : float :=
+  match m with
+  | [] => match prev with Some (_, y0) => y0 | None => 0 end
+  | (x1, y1) :: m' =>
+      if PrimFloat.ltb x1 x then lin_lookup x (Some (x1, y1)) m'
+      else match prev with
+           | None => y1
+           | Some (x0, y0) => (y1 - y0) / (x1 - x0) * (x - x0) + y0
+           end
+  end.
+
+Definition linear_mk (ts vs : list float) : float -> float :=
+  let m := fold_left (fun m tv => lin_insert (fst tv) (snd tv) m) (combine ts vs) [] in
+  fun x => lin_lookup x None m.
+
 (* ---------------------------------------------------------------- MTest tests *)
 Definition finite (x : float) : bool := PrimFloat.is_finite x.   (* std::isfinite *)
 
